@@ -848,7 +848,8 @@ fn parse_json_filter(input: &[u8], output: &mut [u8]) -> Result<(usize, usize), 
             verify_char(input, b'[', &mut inpos)?;
             burn_array(input, &mut inpos)?;
         } else {
-            burn_key_and_value(input, &mut inpos)?;
+            // unknown field: the opening quote of its key has already been consumed
+            burn_key_and_value_after_quote(input, &mut inpos)?;
         }
     }
 
